@@ -560,6 +560,8 @@ def RExpr.val : RExpr → Int → Int → Int
   | .dense f, i, j => f i j
   | .scale a c, i, j => a.val i j * c
   | .add a b, i, j => a.val i j + b.val i j
+  | .bin o a b, i, j => o.apply (a.val i j) (b.val i j)
+  | .binc o a c, i, j => o.apply (a.val i j) c
 
 /-- every special-matrix operand is admissible -/
 def RExpr.AllAdm : RExpr → Prop
@@ -567,6 +569,8 @@ def RExpr.AllAdm : RExpr → Prop
   | .dense _ => True
   | .scale a _ => a.AllAdm
   | .add a b => a.AllAdm ∧ b.AllAdm
+  | .bin _ a b => a.AllAdm ∧ b.AllAdm
+  | .binc _ a _ => a.AllAdm
 
 theorem RExpr.row_spec (r : RExpr) (hr : r.AllAdm) (i j0 : Int) (n : Nat) :
     r.row i j0 n = (List.range n).map (fun (t : Nat) => r.val i (j0 + (t : Int))) := by
@@ -577,6 +581,10 @@ theorem RExpr.row_spec (r : RExpr) (hr : r.AllAdm) (i j0 : Int) (n : Nat) :
   | add a b iha ihb =>
     simp only [RExpr.row, iha hr.1, ihb hr.2, List.zipWith_map, List.zipWith_self]
     rfl
+  | bin o a b iha ihb =>
+    simp only [RExpr.row, iha hr.1, ihb hr.2, List.zipWith_map, List.zipWith_self]
+    rfl
+  | binc o a c ih => simp only [RExpr.row, ih hr, List.map_map]; rfl
 
 theorem RExpr.toDense_spec (r : RExpr) (hr : r.AllAdm) (n : Nat) :
     r.toDense n = (List.range n).flatMap (fun (i : Nat) => (List.range n).map (fun (j : Nat) => r.val (i : Int) (j : Int))) := by
@@ -767,24 +775,61 @@ def AExpr.AllAdm : AExpr → Prop
   | .sm m _ => m.Adm
   | .scale a _ => a.AllAdm
   | .add a b => a.AllAdm ∧ b.AllAdm
+  | .dense _ _ _ => True
+  | .noalias a => a.AllAdm
+  | .bin _ a b => a.AllAdm ∧ b.AllAdm
+  | .binc _ a _ => a.AllAdm
 
 /-- every special-matrix leaf has dimension `n` (otherwise `operator=` throws `size_mismatch`) -/
 def AExpr.DimIs : AExpr → Int → Prop
   | .sm m _, n => m.dim = n
   | .scale a _, n => a.DimIs n
   | .add a b, n => a.DimIs n ∧ b.DimIs n
+  | .dense _ _ _, _ => True
+  | .noalias a, n => a.DimIs n
+  | .bin _ a b, n => a.DimIs n ∧ b.DimIs n
+  | .binc _ a _, n => a.DimIs n
+
+/-- the expression contains no `noalias(...)` wrapper (a right-hand side as the user writes it; the compound
+    operators add the one wrapper around `*this` themselves) -/
+def AExpr.Plain : AExpr → Prop
+  | .sm _ _ => True
+  | .scale a _ => a.Plain
+  | .add a b => a.Plain ∧ b.Plain
+  | .dense _ _ _ => True
+  | .noalias _ => False
+  | .bin _ a b => a.Plain ∧ b.Plain
+  | .binc _ a _ => a.Plain
 
 /-- raw element `k` is a stored element of some special-matrix leaf -/
 def AExpr.Stores : AExpr → Int → Prop
   | .sm m _, k => m.Stores k
   | .scale a _, k => a.Stores k
   | .add a b, k => a.Stores k ∨ b.Stores k
+  | .dense _ _ _, _ => False
+  | .noalias a, k => a.Stores k
+  | .bin _ a b, k => a.Stores k ∨ b.Stores k
+  | .binc _ a _, k => a.Stores k
 
 /-- raw element `k` lies in the `data_range` of some leaf -/
 def AExpr.InRange : AExpr → Int → Prop
   | .sm m _, k => m.dataBegin ≤ k ∧ k ≤ m.dataEnd
   | .scale a _, k => a.InRange k
   | .add a b, k => a.InRange k ∨ b.InRange k
+  | .dense _ _ _, _ => False
+  | .noalias a, k => a.InRange k
+  | .bin _ a b, k => a.InRange k ∨ b.InRange k
+  | .binc _ a _, k => a.InRange k
+
+/-- raw element `k` is read when the expression is evaluated at (i,j) -/
+def AExpr.Reads : AExpr → Int → Int → Int → Prop
+  | .sm m _, i, j, k => InPattern m.e i j ∧ k = m.base + m.e.index i j m.offset
+  | .scale a _, i, j, k => a.Reads i j k
+  | .add a b, i, j, k => a.Reads i j k ∨ b.Reads i j k
+  | .dense _ _ _, _, _, _ => False
+  | .noalias a, i, j, k => a.Reads i j k
+  | .bin _ a b, i, j, k => a.Reads i j k ∨ b.Reads i j k
+  | .binc _ a _, i, j, k => a.Reads i j k
 
 /-- `data_range` spans every stored element -/
 theorem SM.stores_in_range (m : SM) (ha : m.Adm) (k : Int) (h : m.Stores k) : m.dataBegin ≤ k ∧ k ≤ m.dataEnd := by
@@ -801,27 +846,47 @@ theorem AExpr.stores_in_range (r : AExpr) (hr : r.AllAdm) (k : Int) (h : r.Store
     rcases h with h | h
     · exact Or.inl (iha hr.1 h)
     · exact Or.inr (ihb hr.2 h)
+  | dense f i j => exact h
+  | noalias a ih => exact ih hr h
+  | bin o a b iha ihb =>
+    rcases h with h | h
+    · exact Or.inl (iha hr.1 h)
+    · exact Or.inr (ihb hr.2 h)
+  | binc o a c ih => exact ih hr h
 
-/-- if `is_aliased(mem1, mem2)` answers false, no leaf's `data_range` meets `[mem1, mem2]` -/
-theorem AExpr.not_aliased_range (r : AExpr) (mem1 mem2 : Int) (h : r.isAliased mem1 mem2 = false) (k : Int)
+/-- if `is_aliased(mem1, mem2)` answers false, no leaf's `data_range` meets `[mem1, mem2]` (for an expression
+    without `noalias` wrappers) -/
+theorem AExpr.not_aliased_range (r : AExpr) (hp : r.Plain) (mem1 mem2 : Int) (h : r.isAliased mem1 mem2 = false) (k : Int)
     (hk : r.InRange k) : ¬ (mem1 ≤ k ∧ k ≤ mem2) := by
   induction r with
   | sm m l =>
     simp only [AExpr.isAliased, SM.isAliased, decide_eq_false_iff_not] at h
     simp only [AExpr.InRange] at hk
     omega
-  | scale a c ih => exact ih h hk
+  | scale a c ih => exact ih hp h hk
   | add a b iha ihb =>
     simp only [AExpr.isAliased, Bool.or_eq_false_iff] at h
     rcases hk with hk | hk
-    · exact iha h.1 hk
-    · exact ihb h.2 hk
+    · exact iha hp.1 h.1 hk
+    · exact ihb hp.2 h.2 hk
+  | dense f i j => exact fun _ => hk
+  | noalias a ih => exact absurd hp (by simp [AExpr.Plain])
+  | bin o a b iha ihb =>
+    simp only [AExpr.isAliased, Bool.or_eq_false_iff] at h
+    rcases hk with hk | hk
+    · exact iha hp.1 h.1 hk
+    · exact ihb hp.2 h.2 hk
+  | binc o a c ih => exact ih hp h hk
 
 theorem AExpr.bind_allAdm (r : AExpr) (hr : r.AllAdm) (d : Raw) : (r.bind d).AllAdm := by
   induction r with
   | sm m l => exact hr
   | scale a c ih => exact ih hr
   | add a b iha ihb => exact ⟨iha hr.1, ihb hr.2⟩
+  | dense f i j => trivial
+  | noalias a ih => exact ih hr
+  | bin o a b iha ihb => exact ⟨iha hr.1, ihb hr.2⟩
+  | binc o a c ih => exact ih hr
 
 /-- `next_value` after `set_location(i,j)` leaves the cursors where `set_location(i,j+1)` puts them -/
 theorem AExpr.advance_setLocation (r : AExpr) (hr : r.AllAdm) (i j : Int) :
@@ -830,6 +895,10 @@ theorem AExpr.advance_setLocation (r : AExpr) (hr : r.AllAdm) (i j : Int) :
   | sm m l => simp only [AExpr.setLocation, AExpr.advance, m.advance_setLocation hr]
   | scale a c ih => simp only [AExpr.setLocation, AExpr.advance, ih hr]
   | add a b iha ihb => simp only [AExpr.setLocation, AExpr.advance, iha hr.1, ihb hr.2]
+  | dense f i' j' => rfl
+  | noalias a ih => simp only [AExpr.setLocation, AExpr.advance, ih hr]
+  | bin o a b iha ihb => simp only [AExpr.setLocation, AExpr.advance, iha hr.1, ihb hr.2]
+  | binc o a c ih => simp only [AExpr.setLocation, AExpr.advance, ih hr]
 
 /-- the value delivered at cursor (i,j) is the value of the expression over the storage as it is at that moment -/
 theorem AExpr.value_setLocation (r : AExpr) (hr : r.AllAdm) (d : Raw) (i j : Int) :
@@ -838,132 +907,173 @@ theorem AExpr.value_setLocation (r : AExpr) (hr : r.AllAdm) (d : Raw) (i j : Int
   | sm m l => simp only [AExpr.setLocation, AExpr.value, AExpr.bind, RExpr.val, m.valueAt_setLocation hr]
   | scale a c ih => simp only [AExpr.setLocation, AExpr.value, AExpr.bind, RExpr.val, ih hr]
   | add a b iha ihb => simp only [AExpr.setLocation, AExpr.value, AExpr.bind, RExpr.val, iha hr.1, ihb hr.2]
+  | dense f i' j' => rfl
+  | noalias a ih => simp only [AExpr.setLocation, AExpr.value, AExpr.bind, ih hr]
+  | bin o a b iha ihb => simp only [AExpr.setLocation, AExpr.value, AExpr.bind, RExpr.val, iha hr.1, ihb hr.2]
+  | binc o a c ih => simp only [AExpr.setLocation, AExpr.value, AExpr.bind, RExpr.val, ih hr]
 
-/-- the value at (i,j) depends only on the raw elements inside the leaves' data ranges -/
-theorem AExpr.val_congr (r : AExpr) (hr : r.AllAdm) (n : Int) (hn : r.DimIs n) (d d' : Raw)
-    (h : ∀ k, r.InRange k → d k = d' k) (i j : Int) (hi0 : 0 ≤ i) (hi : i < n) (hj0 : 0 ≤ j) (hj : j < n) :
+/-- the value at (i,j) depends only on the raw elements read there -/
+theorem AExpr.val_congr (r : AExpr) (d d' : Raw) (i j : Int) (h : ∀ k, r.Reads i j k → d k = d' k) :
     (r.bind d).val i j = (r.bind d').val i j := by
+  induction r with
+  | sm m l =>
+    simp only [AExpr.bind, RExpr.val]
+    by_cases hp : InPattern m.e i j
+    · rw [(m.get_eq d i j).1 hp, (m.get_eq d' i j).1 hp]
+      exact h _ ⟨hp, rfl⟩
+    · rw [(m.get_eq d i j).2 hp, (m.get_eq d' i j).2 hp]
+  | scale a c ih =>
+    simp only [AExpr.bind, RExpr.val]
+    rw [ih h]
+  | add a b iha ihb =>
+    simp only [AExpr.bind, RExpr.val]
+    rw [iha (fun k hk => h k (Or.inl hk)), ihb (fun k hk => h k (Or.inr hk))]
+  | dense f i' j' => rfl
+  | noalias a ih => exact ih h
+  | bin o a b iha ihb =>
+    simp only [AExpr.bind, RExpr.val]
+    rw [iha (fun k hk => h k (Or.inl hk)), ihb (fun k hk => h k (Or.inr hk))]
+  | binc o a c ih =>
+    simp only [AExpr.bind, RExpr.val]
+    rw [ih h]
+
+/-- what is read at a position inside the dimension lies in some leaf's `data_range` -/
+theorem AExpr.reads_in_range (r : AExpr) (hr : r.AllAdm) (n : Int) (hn : r.DimIs n) (i j k : Int)
+    (hi0 : 0 ≤ i) (hi : i < n) (hj0 : 0 ≤ j) (hj : j < n) (h : r.Reads i j k) : r.InRange k := by
   induction r with
   | sm m l =>
     simp only [AExpr.DimIs] at hn
     subst hn
-    simp only [AExpr.bind, RExpr.val]
-    by_cases hp : InPattern m.e i j
-    · rw [(m.get_eq d i j).1 hp, (m.get_eq d' i j).1 hp]
-      exact h _ (m.stores_in_range hr _ ⟨i, j, hi0, hi, hj0, hj, hp, rfl⟩)
-    · rw [(m.get_eq d i j).2 hp, (m.get_eq d' i j).2 hp]
-  | scale a c ih =>
-    simp only [AExpr.bind, RExpr.val]
-    rw [ih hr hn h]
+    exact m.stores_in_range hr k ⟨i, j, hi0, hi, hj0, hj, h.1, h.2⟩
+  | scale a c ih => exact ih hr hn h
   | add a b iha ihb =>
-    simp only [AExpr.bind, RExpr.val]
-    rw [iha hr.1 hn.1 (fun k hk => h k (Or.inl hk)), ihb hr.2 hn.2 (fun k hk => h k (Or.inr hk))]
+    rcases h with h | h
+    · exact Or.inl (iha hr.1 hn.1 h)
+    · exact Or.inr (ihb hr.2 hn.2 h)
+  | dense f i' j' => exact h
+  | noalias a ih => exact ih hr hn h
+  | bin o a b iha ihb =>
+    rcases h with h | h
+    · exact Or.inl (iha hr.1 hn.1 h)
+    · exact Or.inr (ihb hr.2 hn.2 h)
+  | binc o a c ih => exact ih hr hn h
 
-/-- the in-place inner loop: as long as no store of this loop hits a raw element that a leaf can read, it stores
-    the values the right-hand side has over the ORIGINAL storage `d0` -/
-theorem SM.assignRowIP_eq (m : SM) (rhs : AExpr) (hr : rhs.AllAdm) (N : Int) (hN : rhs.DimIs N) (d0 : Raw)
-    (i : Int) (hi0 : 0 ≤ i) (hi : i < N) (stride : Int) :
+/-- the in-place inner loop: as long as the storage still agrees with the ORIGINAL storage `d0` on everything the
+    remaining steps read, and no store of this loop hits a raw element that a LATER step reads, it stores the values
+    the right-hand side has over `d0` -/
+theorem SM.assignRowIP_eq (m : SM) (rhs : AExpr) (hr : rhs.AllAdm) (d0 : Raw) (i : Int) (stride : Int) :
     ∀ (n : Nat) (j idx : Int) (d : Raw),
-      (∀ t : Nat, t < n → 0 ≤ j + (t : Int) ∧ j + (t : Int) < N) →
-      (∀ k, rhs.InRange k → d k = d0 k) →
-      (∀ t : Nat, t < n → ¬ rhs.InRange (m.base + idx + (t : Int) * stride)) →
+      (∀ t : Nat, t < n → ∀ k, rhs.Reads i (j + (t : Int)) k → d k = d0 k) →
+      (∀ t t' : Nat, t < t' → t' < n → ¬ rhs.Reads i (j + (t' : Int)) (m.base + idx + (t : Int) * stride)) →
       m.assignRowIP n (rhs.setLocation i j) idx stride d
         = m.assignRow ((List.range n).map (fun (t : Nat) => (rhs.bind d0).val i (j + (t : Int)))) idx stride d := by
   intro n
   induction n with
-  | zero => intro j idx d _ _ _; rfl
+  | zero => intro j idx d _ _; rfl
   | succ n ih =>
-    intro j idx d hj hag hmiss
-    have hj0 := hj 0 (by omega)
+    intro j idx d hag hmiss
     have hv : (rhs.setLocation i j).value d = (rhs.bind d0).val i j := by
       rw [rhs.value_setLocation hr]
-      exact rhs.val_congr hr N hN d d0 hag i j hi0 hi (by simpa using hj0.1) (by simpa using hj0.2)
+      apply rhs.val_congr d d0 i j
+      intro k hk
+      apply hag 0 (by omega) k
+      simpa using hk
     rw [SM.assignRowIP, rhs.advance_setLocation hr, hv, List.range_succ_eq_map]
     simp only [List.map_cons, List.map_map, Nat.cast_zero, add_zero, SM.assignRow]
-    have hm0 := hmiss 0 (by omega)
+    have ecast : ∀ t : Nat, j + 1 + (t : Int) = j + ((t + 1 : Nat) : Int) := by intro t; push_cast; ring
     rw [ih (j + 1) (idx + stride)]
     · congr 1
       apply List.map_congr_left
       intro t _
       simp only [Function.comp, Nat.cast_succ]
       congr 1; ring
-    · intro t ht
-      have := hj (t + 1) (by omega)
-      push_cast at this
-      constructor <;> omega
-    · intro k hk
+    · intro t ht k hk
+      rw [ecast] at hk
       rw [Raw.set_apply, if_neg]
-      · exact hag k hk
+      · exact hag (t + 1) (by omega) k hk
       · intro heq
-        apply hm0
-        simpa [heq] using hk
-    · intro t ht
-      have := hmiss (t + 1) (by omega)
-      intro hin; apply this
+        apply hmiss 0 (t + 1) (by omega) (by omega)
+        subst heq
+        simpa using hk
+    · intro t t' htt ht' hin
+      rw [ecast] at hin
+      apply hmiss (t + 1) (t' + 1) (by omega) (by omega)
       have e : m.base + idx + ((t + 1 : Nat) : Int) * stride = m.base + (idx + stride) + (t : Int) * stride := by
         push_cast; ring
       rw [e]; exact hin
 
-/-- one row of the in-place assignment equals the same row of the assignment from a snapshot, provided the
-    leaves' data ranges do not meet the target's data range -/
-theorem SM.assignRowOfIP_eq (m : SM) (ha : m.Adm) (rhs : AExpr) (hr : rhs.AllAdm) (hN : rhs.DimIs m.dim) (d0 d : Raw)
-    (hdis : ∀ k, rhs.InRange k → ¬ (m.dataBegin ≤ k ∧ k ≤ m.dataEnd))
-    (hag : ∀ k, rhs.InRange k → d k = d0 k) (i : Nat) (hi : (i : Int) < m.dim) :
+/-- the stores of a statement never hit what a DIFFERENT position of the traversal reads -/
+def SM.SafeFor (m : SM) (rhs : AExpr) : Prop :=
+  ∀ i j i' j' : Int, 0 ≤ i → i < m.dim → 0 ≤ j → j < m.dim → Canonical m.e i j →
+    0 ≤ i' → i' < m.dim → 0 ≤ j' → j' < m.dim → Canonical m.e i' j' → ¬ (i = i' ∧ j = j') →
+    ¬ rhs.Reads i' j' (m.base + m.e.index i j m.offset)
+
+/-- one row of the in-place assignment equals the same row of the assignment from a snapshot -/
+theorem SM.assignRowOfIP_eq (m : SM) (ha : m.Adm) (rhs : AExpr) (hr : rhs.AllAdm) (d0 d : Raw)
+    (hsafe : m.SafeFor rhs) (i : Nat) (hi : (i : Int) < m.dim)
+    (hag : ∀ j : Int, 0 ≤ j → j < m.dim → Canonical m.e i j → ∀ k, rhs.Reads i j k → d k = d0 k) :
     m.assignRowOfIP rhs d i = m.assignRowOf (rhs.bind d0) d i := by
   have hi0 : (0 : Int) ≤ i := by omega
   obtain ⟨hrange, hidx⟩ := row_range_spec m.e ha.wf m.dim m.offset i hi0 hi
   simp only [SM.assignRowOfIP, SM.assignRowOf]
   rw [(rhs.bind d0).row_spec (rhs.bind_allAdm hr d0)]
-  apply m.assignRowIP_eq rhs hr m.dim hN d0 i hi0 hi
-  · intro t ht
-    have := (hrange (m.e.get_row_range_j_start i m.dim m.offset + t)).1 ⟨by omega, by omega⟩
-    exact ⟨this.1, this.2.1⟩
-  · exact hag
-  · intro t ht hin
+  apply m.assignRowIP_eq rhs hr d0 i
+  · intro t ht k hk
     have hc := (hrange (m.e.get_row_range_j_start i m.dim m.offset + t)).1 ⟨by omega, by omega⟩
+    exact hag _ hc.1 hc.2.1 hc.2.2 k hk
+  · intro t t' htt ht' hin
+    have hc := (hrange (m.e.get_row_range_j_start i m.dim m.offset + t)).1 ⟨by omega, by omega⟩
+    have hc' := (hrange (m.e.get_row_range_j_start i m.dim m.offset + t')).1 ⟨by omega, by omega⟩
     have hx := hidx (m.e.get_row_range_j_start i m.dim m.offset + t) (by omega) (by omega)
-    have hs : m.Stores (m.base + m.e.get_row_range_index_start i m.dim m.offset
-        + (t : Int) * m.e.get_row_range_index_stride i m.dim m.offset) :=
-      ⟨i, _, hi0, hi, hc.1, hc.2.1, canonical_pattern _ _ _ hc.2.2, by rw [← hx]; ring⟩
-    exact hdis _ hin (m.stores_in_range ha _ hs)
+    have e : m.base + m.e.get_row_range_index_start i m.dim m.offset
+        + (t : Int) * m.e.get_row_range_index_stride i m.dim m.offset
+        = m.base + m.e.index i (m.e.get_row_range_j_start i m.dim m.offset + t) m.offset := by
+      rw [← hx]; ring
+    rw [e] at hin
+    exact hsafe i _ i _ hi0 hi hc.1 hc.2.1 hc.2.2 hi0 hi hc'.1 hc'.2.1 hc'.2.2 (by omega) hin
 
 /-- the in-place assignment equals the assignment from a snapshot of the storage taken before the statement,
-    provided the leaves' data ranges do not meet the target's data range -/
-theorem SM.assignInPlace_eq (m : SM) (ha : m.Adm) (rhs : AExpr) (hr : rhs.AllAdm) (hN : rhs.DimIs m.dim) (d : Raw)
-    (hdis : ∀ k, rhs.InRange k → ¬ (m.dataBegin ≤ k ∧ k ≤ m.dataEnd)) :
+    provided no store hits what a different position reads -/
+theorem SM.assignInPlace_eq (m : SM) (ha : m.Adm) (rhs : AExpr) (hr : rhs.AllAdm) (d : Raw) (hsafe : m.SafeFor rhs) :
     m.assignInPlace rhs d = m.assign (rhs.bind d) d := by
-  have key : ∀ (rows : List Nat), (∀ i ∈ rows, (i : Int) < m.dim) → ∀ d' : Raw, (∀ k, rhs.InRange k → d' k = d k) →
+  have key : ∀ (rows : List Nat), rows.Nodup → (∀ i ∈ rows, (i : Int) < m.dim) → ∀ d' : Raw,
+      (∀ i ∈ rows, ∀ j : Int, 0 ≤ j → j < m.dim → Canonical m.e (i : Int) j → ∀ k, rhs.Reads i j k → d' k = d k) →
       rows.foldl (m.assignRowOfIP rhs) d' = rows.foldl (m.assignRowOf (rhs.bind d)) d' := by
     intro rows
     induction rows with
-    | nil => intro _ d' _; rfl
+    | nil => intro _ _ d' _; rfl
     | cons i rest ih =>
-      intro hrows d' hag
+      intro hnd hrows d' hag
       have hi : (i : Int) < m.dim := hrows i (by simp)
+      have hnd' := List.nodup_cons.mp hnd
       simp only [List.foldl_cons]
-      rw [m.assignRowOfIP_eq ha rhs hr hN d d' hdis hag i hi]
-      apply ih (fun i' hi' => hrows i' (by simp [hi']))
-      intro k hk
+      rw [m.assignRowOfIP_eq ha rhs hr d d' hsafe i hi (hag i (by simp))]
+      apply ih hnd'.2 (fun i' hi' => hrows i' (by simp [hi']))
+      intro i2 hi2 j2 hj20 hj2 hc2 k hk
+      have hne : i ≠ i2 := fun h => hnd'.1 (h ▸ hi2)
+      have hi2d : (i2 : Int) < m.dim := hrows i2 (by simp [hi2])
       have hmiss := (m.assignRowOf_spec ha (rhs.bind d) (rhs.bind_allAdm hr d) d' i hi).2 k (by
         intro j hj0 hj hc heq
-        apply hdis k hk
-        rw [heq]
-        exact m.stores_in_range ha _ ⟨i, j, by omega, hi, hj0, hj, canonical_pattern _ _ _ hc, rfl⟩)
-      rw [hmiss]; exact hag k hk
+        subst heq
+        exact hsafe i j i2 j2 (by omega) hi hj0 hj hc (by omega) hi2d hj20 hj2 hc2 (by omega) hk)
+      rw [hmiss]; exact hag i2 (by simp [hi2]) j2 hj20 hj2 hc2 k hk
   simp only [SM.assignInPlace, SM.assign]
   apply key
+  · exact List.nodup_range
   · intro i hi
     have := List.mem_range.mp hi
     have := ha.dim_pos
     omega
-  · intro k _; rfl
+  · intro i _ j _ _ _ k _; rfl
 
 theorem SM.packed_adm (e : Engine) (he : WF e) (n : Int) (hn : 1 ≤ n) : (SM.packed e n).Adm :=
   ⟨he, hn, le_refl _⟩
 
-/-- `M = rhs` with a right-hand side that may read M's own storage: every position `get_row_range` enumerates
-    receives the value the right-hand side had there BEFORE the statement, and no other raw element changes -/
-theorem SM.assignExpr_spec (m : SM) (ha : m.Adm) (rhs : AExpr) (hr : rhs.AllAdm) (hN : rhs.DimIs m.dim) (d : Raw) :
+/-- `operator=(const Expression&)` for ANY right-hand side (with or without `noalias` wrappers): if, whenever the
+    alias test answers false, no store can hit what a different position reads, the statement is "evaluate the
+    right-hand side over the old storage, then store" -/
+theorem SM.assignExpr_gen (m : SM) (ha : m.Adm) (rhs : AExpr) (hr : rhs.AllAdm) (d : Raw)
+    (hsafe : rhs.isAliased m.dataBegin m.dataEnd = false → m.SafeFor rhs) :
     (∀ i j : Int, 0 ≤ i → i < m.dim → 0 ≤ j → j < m.dim → Canonical m.e i j →
         m.assignExpr rhs d (m.base + m.e.index i j m.offset) = (rhs.bind d).val i j) ∧
     (∀ k : Int, (∀ i j : Int, 0 ≤ i → i < m.dim → 0 ≤ j → j < m.dim → Canonical m.e i j →
@@ -982,7 +1092,75 @@ theorem SM.assignExpr_spec (m : SM) (ha : m.Adm) (rhs : AExpr) (hr : rhs.AllAdm)
     exact c1 i j hi0 hi hj0 hj hcan
   · have hal' : rhs.isAliased m.dataBegin m.dataEnd = false := by simpa using hal
     simp only [SM.assignExpr, hal', Bool.false_eq_true, if_false]
-    rw [m.assignInPlace_eq ha rhs hr hN d (fun k hk => rhs.not_aliased_range _ _ hal' k hk)]
+    rw [m.assignInPlace_eq ha rhs hr d (hsafe hal')]
     exact m.assign_raw ha (rhs.bind d) (rhs.bind_allAdm hr d) d
+
+/-- a right-hand side without `noalias` wrappers that the alias test clears reads nothing the statement stores -/
+theorem SM.safeFor_of_not_aliased (m : SM) (ha : m.Adm) (rhs : AExpr) (hr : rhs.AllAdm) (hp : rhs.Plain)
+    (hN : rhs.DimIs m.dim) (hal : rhs.isAliased m.dataBegin m.dataEnd = false) : m.SafeFor rhs := by
+  intro i j i' j' hi0 hi hj0 hj hc hi0' hi' hj0' hj' _ _ hread
+  have hin := rhs.reads_in_range hr m.dim hN i' j' _ hi0' hi' hj0' hj' hread
+  exact rhs.not_aliased_range hp _ _ hal _ hin
+    (m.stores_in_range ha _ ⟨i, j, hi0, hi, hj0, hj, canonical_pattern _ _ _ hc, rfl⟩)
+
+/-- `M = rhs` with a right-hand side that may read M's own storage: every position `get_row_range` enumerates
+    receives the value the right-hand side had there BEFORE the statement, and no other raw element changes -/
+theorem SM.assignExpr_spec (m : SM) (ha : m.Adm) (rhs : AExpr) (hr : rhs.AllAdm) (hp : rhs.Plain)
+    (hN : rhs.DimIs m.dim) (d : Raw) :
+    (∀ i j : Int, 0 ≤ i → i < m.dim → 0 ≤ j → j < m.dim → Canonical m.e i j →
+        m.assignExpr rhs d (m.base + m.e.index i j m.offset) = (rhs.bind d).val i j) ∧
+    (∀ k : Int, (∀ i j : Int, 0 ≤ i → i < m.dim → 0 ≤ j → j < m.dim → Canonical m.e i j →
+        k ≠ m.base + m.e.index i j m.offset) → m.assignExpr rhs d k = d k) :=
+  m.assignExpr_gen ha rhs hr d (m.safeFor_of_not_aliased ha rhs hr hp hN)
+
+/-- `noalias(*this)`: the wrapped target is read at (i,j) only in the raw element that is stored at (i,j) -/
+theorem SM.safeFor_self (m : SM) (ha : m.Adm) : m.SafeFor (.noalias (.leaf m)) := by
+  intro i j i' j' hi0 hi hj0 hj hc hi0' hi' hj0' hj' hc' hne hread
+  simp only [AExpr.leaf, AExpr.Reads] at hread
+  have := canonical_inj m.e ha.wf m.dim m.offset i j i' j' ha.off hi0 hi hj0 hj hi0' hi' hj0' hj' hc hc' (by omega)
+  exact hne this
+
+/-- `noalias(*this) OP rest` is safe as soon as `rest` is -/
+theorem SM.safeFor_self_bin (m : SM) (ha : m.Adm) (rest : AExpr) (h : m.SafeFor rest) (o : BinOp) :
+    m.SafeFor (.bin o (.noalias (.leaf m)) rest) := by
+  intro i j i' j' hi0 hi hj0 hj hc hi0' hi' hj0' hj' hc' hne hread
+  rcases hread with hread | hread
+  · exact m.safeFor_self ha i j i' j' hi0 hi hj0 hj hc hi0' hi' hj0' hj' hc' hne hread
+  · exact h i j i' j' hi0 hi hj0 hj hc hi0' hi' hj0' hj' hc' hne hread
+
+/-- the compound operators `M OP= rhs` (`*this = noalias(*this) OP rhs`), `rhs` any expression without `noalias`
+    wrappers whose leaves may lie anywhere in M's own Storage object: every position `get_row_range` enumerates holds
+    `old M(i,j) OP rhs(i,j)` with `rhs` evaluated over the storage BEFORE the statement; no other raw element changes -/
+theorem SM.compound_spec (m : SM) (ha : m.Adm) (o : BinOp) (rhs : AExpr) (hr : rhs.AllAdm) (hp : rhs.Plain)
+    (hN : rhs.DimIs m.dim) (d : Raw) :
+    (∀ i j : Int, 0 ≤ i → i < m.dim → 0 ≤ j → j < m.dim → Canonical m.e i j →
+        m.compound o rhs d (m.base + m.e.index i j m.offset)
+          = o.apply (d (m.base + m.e.index i j m.offset)) ((rhs.bind d).val i j)) ∧
+    (∀ k : Int, (∀ i j : Int, 0 ≤ i → i < m.dim → 0 ≤ j → j < m.dim → Canonical m.e i j →
+        k ≠ m.base + m.e.index i j m.offset) → m.compound o rhs d k = d k) := by
+  have hall : (AExpr.bin o (.noalias (.leaf m)) rhs).AllAdm := ⟨ha, hr⟩
+  obtain ⟨g1, g2⟩ := m.assignExpr_gen ha (.bin o (.noalias (.leaf m)) rhs) hall d (by
+    intro hal
+    simp only [AExpr.isAliased, Bool.false_or] at hal
+    exact m.safeFor_self_bin ha rhs (m.safeFor_of_not_aliased ha rhs hr hp hN hal) o)
+  refine ⟨fun i j hi0 hi hj0 hj hc => ?_, g2⟩
+  rw [SM.compound, g1 i j hi0 hi hj0 hj hc]
+  simp only [AExpr.bind, AExpr.leaf, RExpr.val]
+  rw [(m.get_eq d i j).1 (canonical_pattern _ _ _ hc)]
+
+/-- the compound operators with a scalar on the right, `M OP= c` -/
+theorem SM.compoundScalar_spec (m : SM) (ha : m.Adm) (o : BinOp) (c : Int) (d : Raw) :
+    (∀ i j : Int, 0 ≤ i → i < m.dim → 0 ≤ j → j < m.dim → Canonical m.e i j →
+        m.compoundScalar o c d (m.base + m.e.index i j m.offset) = o.apply (d (m.base + m.e.index i j m.offset)) c) ∧
+    (∀ k : Int, (∀ i j : Int, 0 ≤ i → i < m.dim → 0 ≤ j → j < m.dim → Canonical m.e i j →
+        k ≠ m.base + m.e.index i j m.offset) → m.compoundScalar o c d k = d k) := by
+  have hall : (AExpr.binc o (.noalias (.leaf m)) c).AllAdm := ha
+  obtain ⟨g1, g2⟩ := m.assignExpr_gen ha (.binc o (.noalias (.leaf m)) c) hall d (by
+    intro _ i j i' j' hi0 hi hj0 hj hc hi0' hi' hj0' hj' hc' hne hread
+    exact m.safeFor_self ha i j i' j' hi0 hi hj0 hj hc hi0' hi' hj0' hj' hc' hne hread)
+  refine ⟨fun i j hi0 hi hj0 hj hc => ?_, g2⟩
+  rw [SM.compoundScalar, g1 i j hi0 hi hj0 hj hc]
+  simp only [AExpr.bind, AExpr.leaf, RExpr.val]
+  rw [(m.get_eq d i j).1 (canonical_pattern _ _ _ hc)]
 
 end Adept.Special
